@@ -167,7 +167,7 @@ impl DisconnectProperties {
     }
 
     pub fn extract(bytes: &mut Bytes) -> Result<Option<Self>, Error> {
-        let (properties_len_len, properties_len) = length(bytes.iter())?;
+        let (properties_len_len, properties_len) = length_in_frame(bytes.iter())?;
 
         bytes.advance(properties_len_len);
 
